@@ -11,7 +11,7 @@ ids="$*"; [ -z "$ids" ] && ids=$(jq -r '.checks[].property_id' MANIFEST.json)
 ./check --setup > /dev/null || exit 2
 rc=0
 for id in $ids; do
-  bin=bin/simcheck; [ "$id" = C08 ] && bin=bin/simcheck-race; { [ "$id" = C17 ] || [ "$id" = C15 ] || [ "$id" = C07 ]; } && bin=bin/simcheck-ostype
+  bin=bin/simcheck; [ "$id" = C08 ] && bin=bin/simcheck-race; { [ "$id" = C17 ] || [ "$id" = C15 ] || [ "$id" = C07 ] || [ "$id" = C06 ]; } && bin=bin/simcheck-ostype
   d=.work/det/$id; rm -rf $d; mkdir -p $d
   k=0
   for procs in 1 4 16 1 16; do
